@@ -31,7 +31,7 @@ def main():
             continue
         spec = importlib.import_module("props." + pid)
         engines = getattr(spec, "ENGINES", "KM")
-        tech = " + ".join(TECH[e] for e in engines if e in TECH)
+        tech = getattr(spec, "TECHNIQUE", None) or " + ".join(TECH[e] for e in engines if e in TECH)
         checks.append({
             "property_id": pid,
             "quick_cmd": "./check %s --tier quick" % pid,
